@@ -109,6 +109,16 @@ def check_pred(rep, ix):
     ps = [x.arg for x in b.args.args]
     ok = calls.get('write_curve_section_to_las') == [ps[0], ps[4], ps[7]] and calls.get('write_array_section_to_las') == ps
     rep.ob('R-C10-PRED', f'{M}:write_curve_and_array_section_to_las', 'curve section and array section receive the same frame array and subset', ok, found=str(calls), node=b, module=m)
+    # ... and the subset they pass on is the caller's: not rebound, not changed on the way (an empty set means `all channels`,
+    # so dropping members can flip the meaning)
+    for fn, h, name in (('write_array_section_to_las', a, a.args.args[4].arg), ('write_curve_and_array_section_to_las', b, b.args.args[4].arg)):
+        copies = (f'set({name})', f'frozenset({name})', f'{name}.copy()', f'{name}')
+        stores = [n for n in walk_no_nested(h) if isinstance(n, ast.Name) and n.id == name and isinstance(n.ctx, (ast.Store, ast.Del))
+                  and not (isinstance(common.stmt_containing(n), ast.Assign) and _n(common.stmt_containing(n).value) in copies)]
+        meth = [n for n in walk_no_nested(h) if isinstance(n, ast.Call) and isinstance(n.func, ast.Attribute) and isinstance(n.func.value, ast.Name)
+                and n.func.value.id == name and n.func.attr not in ('copy', '__len__', '__contains__', 'issubset', 'issuperset', 'isdisjoint')]
+        rep.ob('R-C10-PRED', f'{M}:{fn}', f'the subset `{name}` reaches the section writers as given', not stores and not meth,
+               found='; '.join(_n(common.stmt_containing(n)) for n in stores + meth)[:200], required='no rebinding, no mutating call', node=(stores + meth + [h])[0], module=m)
 
 
 def check_rows(rep, ix):
